@@ -47,6 +47,7 @@ Theorem C21_operators :
   (forall pp pn, op_correct (op_anti_join pp pn) (anti_join_spec pp pn)) /\
   (forall pp pn, op_correct (op_difference pp pn) (difference_spec pp pn)) /\
   op_correct (op_zip Tick Tick) zip_tick_spec /\
+  op_correct (op_zip Static Static) zip_static_spec /\
   op_correct op_zip_longest (fun _ cur => [vzip_longest (port 0 cur) (port 1 cur)]) /\
   (forall p i f, op_correct (op_scan p i f) (scan_spec p i f)).
 Proof. exact named_operators_correct. Qed.
